@@ -129,8 +129,12 @@ fn cache_schedules(r: &mut Report, rng: &mut Rng, n: u64) {
         let dir = std::sync::Arc::new(tempfile::Builder::new().prefix("vetc18cache").tempdir_in(root).unwrap());
         let k = rng.range(2, 6);
         let plan: Vec<(u64, u64)> = (0..k).map(|_| (rng.below(10) as u64, rng.below(10) as u64)).collect();
+        // in a third of the schedules one invocation is `gc --clean` / `gc` instead of a fetch
+        let special: Option<(usize, bool)> = if i % 3 == 1 { Some((rng.below(k), rng.chance(2, 3))) } else { None };
         r.evaluations += 1;
         let errors = std::sync::Arc::new(std::sync::Mutex::new(Vec::<String>::new()));
+        let holders = std::sync::Arc::new(AtomicUsize::new(0));
+        let overlap = std::sync::Arc::new(AtomicUsize::new(0));
         let base = base_project();
         let cfg0 = std::sync::Arc::new(base.cfg(&[]));
         let mut handles = Vec::new();
@@ -139,6 +143,9 @@ fn cache_schedules(r: &mut Report, rng: &mut Rng, n: u64) {
             let errors = errors.clone();
             let name = names[id].clone();
             let cfg0 = cfg0.clone();
+            let holders = holders.clone();
+            let overlap = overlap.clone();
+            let role = special.filter(|(who, _)| *who == id).map(|(_, clean)| clean);
             handles.push(std::thread::spawn(move || {
                 let _enter = TEST_RUNTIME.enter();
                 std::thread::sleep(std::time::Duration::from_millis(think.0));
@@ -151,10 +158,23 @@ fn cache_schedules(r: &mut Report, rng: &mut Rng, n: u64) {
                 let res = guarded(|| -> Result<(), String> {
                     let network = Network::acquire(&cfg0).ok_or("no network")?;
                     let cache = crate::storage::Cache::acquire(&pc).map_err(|e| format!("acquire: {e:?}"))?;
+                    // between acquire and drop this invocation must be alone in the cache directory
+                    if holders.fetch_add(1, Ordering::SeqCst) != 0 {
+                        overlap.fetch_add(1, Ordering::SeqCst);
+                    }
                     std::thread::sleep(std::time::Duration::from_millis(think.1));
-                    tokio::runtime::Handle::current().block_on(cache.crates_io_info(Some(&network), &name)).map_err(|e| format!("info: {e:?}"))?;
+                    let res = match role {
+                        Some(true) => cache.clean_sync().map_err(|e| format!("clean: {e:?}")),
+                        Some(false) => { cache.gc_sync(std::time::Duration::from_secs(0)); Ok(()) }
+                        None => tokio::runtime::Handle::current().block_on(cache.crates_io_info(Some(&network), &name)).map(|_| ()).map_err(|e| format!("info: {e:?}")),
+                    };
+                    std::thread::sleep(std::time::Duration::from_millis(think.0 / 2));
+                    if holders.load(Ordering::SeqCst) != 1 {
+                        overlap.fetch_add(1, Ordering::SeqCst);
+                    }
+                    holders.fetch_sub(1, Ordering::SeqCst);
                     drop(cache);
-                    Ok(())
+                    res
                 });
                 match res {
                     Ok(Ok(())) => {}
@@ -166,8 +186,11 @@ fn cache_schedules(r: &mut Report, rng: &mut Rng, n: u64) {
         for h in handles {
             let _ = h.join();
         }
-        let case = format!("cache-schedule#{i}: {plan:?}");
+        let case = format!("cache-schedule#{i}: {plan:?} special={special:?}");
         r.oracle_checked += 1;
+        if overlap.load(Ordering::SeqCst) != 0 {
+            r.fail("oracle", "C18/cache-held-by-two-invocations", "two invocations were between Cache::acquire and drop at the same time".into(), &case);
+        }
         let errs = errors.lock().unwrap().clone();
         if !errs.is_empty() {
             r.fail("oracle", "C18/cache-error-under-concurrency", format!("{errs:?}").chars().take(600).collect(), &case);
@@ -175,10 +198,11 @@ fn cache_schedules(r: &mut Report, rng: &mut Rng, n: u64) {
         }
         let text = fs::read_to_string(dir.path().join("cache-root").join("crates-io-cache.json")).unwrap_or_default();
         let missing: Vec<&String> = names.iter().take(k).filter(|nm| !text.contains(nm.as_str())).collect();
-        if !missing.is_empty() {
+        // (a `gc --clean` legitimately wipes what was fetched before it; a `gc` fetches nothing)
+        if !missing.is_empty() && special.is_none() {
             r.fail("oracle", "C18/cache-lost-update", format!("invocations that fetched {missing:?} finished without error but the final crates.io cache file does not hold their entries"), &case);
         }
-        if serde_json::from_str::<serde_json::Value>(&text).is_err() {
+        if !text.is_empty() && serde_json::from_str::<serde_json::Value>(&text).is_err() {
             r.fail("oracle", "C18/cache-file-corrupt", "the final crates.io cache file is not valid JSON".into(), &case);
         }
         r.nontrivial(&case);
